@@ -55,6 +55,10 @@ def gen_history(rng):
 
 
 def cases(tier, seed, phase):
+    for j in range(24 if tier == 'quick' else 400):
+        rng = rng_for(seed, 'c04s', j)
+        yield {'kind': 'scanwrite', 'nbefore': rng.choice([0, 1, 3]), 'nwrites': rng.choice([1, 2, 3]), 'scan_at': rng.choice(['env', 'env', 'meta', 'both']),
+               'then_crash': rng.random() < 0.5}
     n = 90 if tier == 'quick' else 1500
     for j in range(n):
         def mk(j=j):
@@ -186,7 +190,72 @@ def reopen(files):
         shutil.rmtree(root, ignore_errors=True)
 
 
+def run_scanwrite(case, model):
+    """The start-up scan (`load()`, as Queue._load_all runs it) overlaps writes that are between their two files. Every write that
+    returned an id must be found, intact, by a queue started later over the same directories."""
+    import gevent
+    from slimta.diskstorage import DiskStorage
+    root = tempfile.mkdtemp(prefix='verif_c04s_')
+    hits = []
+    try:
+        for d in ('env', 'meta', 'tmp'):
+            os.mkdir(os.path.join(root, d))
+        st = DiskStorage(os.path.join(root, 'env'), os.path.join(root, 'meta'), os.path.join(root, 'tmp'))
+        acked = {}
+        for k in range(case['nbefore']):
+            acked[st.write(make_env(k, 2), 1000.0 + k)] = k
+        real_env, real_meta = st.ops.write_env, st.ops.write_meta
+        scans = []
+
+        def scan():
+            try:
+                scans.append(sorted(i for _, i in st.load()))
+            except Exception as e:
+                scans.append('raised %r' % e)
+
+        def write_env(id, envelope):
+            r = real_env(id, envelope)
+            if case['scan_at'] in ('env', 'both'):
+                gevent.spawn(scan).join()       # the scan runs while this write has its envelope file but no meta file yet
+            return r
+
+        def write_meta(id, meta):
+            if case['scan_at'] in ('meta', 'both'):
+                gevent.spawn(scan).join()
+            return real_meta(id, meta)
+        st.ops.write_env, st.ops.write_meta = write_env, write_meta
+        for k in range(case['nbefore'], case['nbefore'] + case['nwrites']):
+            try:
+                acked[st.write(make_env(k, 2), 1000.0 + k)] = k
+            except Exception as e:
+                hits.append(hit('c04.write-raises-during-scan', 'a write failed because a scan ran at the same time', observed=repr(e)))
+        files = {}
+        for d in ('env', 'meta', 'tmp'):
+            for fn in os.listdir(os.path.join(root, d)):
+                with open(os.path.join(root, d, fn), 'rb') as f:
+                    files[d + '/' + fn] = f.read()
+        got, problems = reopen(files)
+        for p in problems:
+            hits.append(hit('c04.recovery-raises', 'reopening the directories failed', observed=p))
+        for sid, k in acked.items():
+            gv = got.get(sid)
+            if gv is None:
+                hits.append(hit('c04.acknowledged-message-missing', 'a message whose write had returned is not found by a queue started later '
+                                '(a start-up scan had overlapped the write)', observed={'message': k, 'scans': scans[:3]}))
+                break
+            if gv['e'] != k or not gv['body_ok'] or gv['att'] != 0 or gv['rcpts'] != [0, 1]:
+                hits.append(hit('c04.recovered-state-wrong', 'recovered message differs from what was written', observed={'message': k, 'got': gv}))
+                break
+        if any(isinstance(x, str) for x in scans):
+            hits.append(hit('c04.scan-raises', 'load() raised while a write was in progress', observed=[x for x in scans if isinstance(x, str)][:2]))
+    finally:
+        shutil.rmtree(root, ignore_errors=True)
+    return CaseResult(None, hits, ('scanwrite', case['nbefore'], case['nwrites'], case['scan_at']), ['scan-during-write'])
+
+
 def run_case(case, model):
+    if case.get('kind') == 'scanwrite':
+        return run_scanwrite(case, model)
     import gevent
     from slimta.diskstorage import DiskStorage
     ops = case['ops']
